@@ -196,47 +196,47 @@ def setBA (bas : List BA) (b : BA) : List BA :=
 section
 variable {F : Type} [Mul F] [Zero F] [DecidableEq F]
 
-/-- `commitBlobberRead` after input decoding. Returns the new state and the value moved out of the read pool. -/
-def commit (cr : Crypto F) (s : St F) (m : Marker F) : Except Err (St F × Nat) :=
-  if verifyClientID cr m = false then .error .clientId
-  else match keyOf m with
-  | none => .error .unsupported
-  | some key =>
-    let lastRM := aGet s.last key
-    let lastKnownCtr : Int := (lastRM.map (·.ctr)).getD 0
-    match verify cr m lastRM with
-    | .error e => .error e
-    | .ok () =>
-      match aGet s.allocs m.alloc with
-      | none => .error .noAlloc
-      | some al =>
-        if m.ts < al.start then .error .early
-        else if m.ts > al.expiration then .error .late
-        else match al.bas.find? (fun d => d.blobber = m.blobber) with
-        | none => .error .notInAlloc
-        | some d =>
-          match aGet s.sps m.blobber with
-          | none => .error .noBlobber
-          | some sp =>
-            let numReads := m.ctr - lastKnownCtr
-            match chargeOf d.price numReads with
-            | none => .error .insufficient
-            | some value =>
-              let bal := s.pool m.client
-              if value > bal then .error .insufficient
-              else match distribute sp value with
-              | .error _ => .error .distribute
-              | .ok sp' =>
-                match Coin.addCoin d.readReward value with
-                | .error _ => .error .overflow
-                | .ok rr =>
-                  let d' := { d with readReward := rr, numReads := d.numReads + 1 }
-                  let al' := { al with numReads := al.numReads + 1, bas := setBA al.bas d' }
-                  .ok ({ s with
-                          pools := aSet s.pools m.client (bal - value)
-                          sps := aSet s.sps m.blobber sp'
-                          allocs := aSet s.allocs m.alloc al'
-                          last := aSet s.last key m }, value)
+/-- `if !c { return err }`. -/
+def need (c : Bool) (e : Err) : Except Err Unit := if c then .ok () else .error e
+
+/-- a lookup whose failure is the error `e`. -/
+def getOr {α : Type} (o : Option α) (e : Err) : Except Err α :=
+  match o with
+  | some a => .ok a
+  | none => .error e
+
+/-- any error of `x` becomes `e`. -/
+def mapErr {ε α : Type} (x : Except ε α) (e : Err) : Except Err α :=
+  match x with
+  | .ok a => .ok a
+  | .error _ => .error e
+
+/-- `commitBlobberRead` after input decoding, statement by statement. Returns the new state and the value moved out of
+the read pool. -/
+def commit (cr : Crypto F) (s : St F) (m : Marker F) : Except Err (St F × Nat) := do
+  need (verifyClientID cr m) .clientId
+  let key ← getOr (keyOf m) .unsupported
+  let lastRM := aGet s.last key
+  let lastKnownCtr : Int := (lastRM.map (·.ctr)).getD 0
+  verify cr m lastRM
+  let al ← getOr (aGet s.allocs m.alloc) .noAlloc
+  need (decide (al.start ≤ m.ts)) .early
+  need (decide (m.ts ≤ al.expiration)) .late
+  let d ← getOr (al.bas.find? (fun d => d.blobber = m.blobber)) .notInAlloc
+  let sp ← getOr (aGet s.sps m.blobber) .noBlobber
+  let numReads := m.ctr - lastKnownCtr
+  let value ← getOr (chargeOf d.price numReads) .insufficient
+  let bal := s.pool m.client
+  need (decide (value ≤ bal)) .insufficient
+  let sp' ← mapErr (distribute sp value) .distribute
+  let rr ← mapErr (Coin.addCoin d.readReward value) .overflow
+  let d' := { d with readReward := rr, numReads := d.numReads + 1 }
+  let al' := { al with numReads := al.numReads + 1, bas := setBA al.bas d' }
+  return ({ s with
+            pools := aSet s.pools m.client (bal - value)
+            sps := aSet s.sps m.blobber sp'
+            allocs := aSet s.allocs m.alloc al'
+            last := aSet s.last key m }, value)
 
 end
 
